@@ -115,6 +115,16 @@ class BuzzGen:
                 if has_f:
                     parts.append(r.choice([self.arg(f, depth), f"frequency={self.arg(f, depth)}"]))
                 kws = [f"on_ms={self.arg(on, depth)}", f"off_ms={self.arg(off, depth)}", f"times={self.arg(times, depth)}"]
+                # every subset of the keyword-only defaults (on_ms=100, off_ms=100, times=1) may be left out
+                if r.random() < 0.4:
+                    keep = [r.random() < 0.5 for _ in kws]
+                    if not keep[0]:
+                        call["on_ms"] = 100
+                    if not keep[1]:
+                        call["off_ms"] = 100
+                    if not keep[2]:
+                        call["times"] = 1
+                    kws = [k for k, used in zip(kws, keep) if used]
                 r.shuffle(kws)
                 text = f"bz.beep({', '.join(parts + kws)})"
             elif m == "sweep":
